@@ -196,6 +196,8 @@ def handleFiles (args : List String) (impl : String) : String :=
       ⟨pathRepr (headerPath f.path), toString f.content.length, toString f.content.length,
        hex16 (fnv f.content), octal f.mode, "1"⟩
     let verdict :=
+      -- the harness iterates the un-reparsed value `build()` returned as well; it answers `mem-differs …` when that differs
+      if impl.startsWith "mem-differs" then "fails:unreparsed-value-differs" else
       if dup ∨ tooLong then
         -- which of two files with one destination is kept is not the property's business; that every item handed out has the
         -- recorded size and the recorded digest is (seed C08-7: the second content under the first one's digest)
@@ -320,16 +322,23 @@ def handleRaw (pkgHex : String) (impl : String) : String :=
                 | some _ =>
                   -- size and digest are recorded once per file: judged when the archive is unanimous about the content
                   if cands.eraseDups.length ≠ 1 then none
-                  else if i.len ≠ i.size then some (if clean then "size" else "short-content")
+                  -- the item IS the content of the (only) archive entry naming this file, but the archive entry's own `filesize`
+                  -- is not the size the rpm header records for the file (`C07.item_length_eq_recorded_iff`): its own class
+                  else if i.len ≠ i.size then some (if clean then "recorded-size-disagrees" else "short-content")
                   else if i.dg == "0" then some "digest"
                   else none
             let fails := (o.items.zipIdx.filterMap fun (i, j) => judge j i)
             if o.all == "runaway" then "fails:runaway"
             else if o.all.startsWith "adapters-differ" then "fails:adapters"
             else if fails.contains "position-pairing" then "fails:position-pairing"
-            else match fails.head? with
+            -- an archive entry whose own `filesize` contradicts the size the header records is an INCONSISTENT package: the two
+            -- demands of the property ("exactly the bytes stored for it", "its length equals the recorded size") cannot both be
+            -- met and its quantifier lists no such packages — don't-care, not a failure (the model still has to predict the
+            -- code exactly; `C07.item_length_eq_recorded_iff` says when it happens)
+            else match (fails.filter (· ≠ "recorded-size-disagrees")).head? with
               | some c => "fails:" ++ c
               | none =>
+                if fails.contains "recorded-size-disagrees" then "dontcare" else
                 if !clean then "dontcare"                       -- damaged archive: an error is acceptable
                 else match unknownAt with
                   | some k =>
@@ -361,7 +370,13 @@ def handleRaw (pkgHex : String) (impl : String) : String :=
         let nuls := match arch.head? with
           | some (.cpio e, _) => if (p.content.drop 94).take 8 == fmtHex8 (e.name.length + 1) then "" else "-padded-name"
           | _ => ""
-        answer model verdict s!"foreign-{kind}-{shape}{plain}{nuls}"
+        -- numeric fields of the first entry spelled with upper-case digits / a leading `+` (both accepted by `from_str_radix`)
+        let alt := match arch.head? with
+          | some (.cpio _, _) => if ((p.content.drop 6).take 104).any (fun b => b == 43 || (65 ≤ b.toNat && b.toNat ≤ 70)) then "-altspelling" else ""
+          | some (.stripped _, _) => if ((p.content.drop 6).take 8).any (fun b => b == 43 || (65 ≤ b.toNat && b.toNat ≤ 70)) then "-altspelling" else ""
+          | none => ""
+        let nuls := if alt == "" then nuls else ""
+        answer model verdict s!"foreign-{kind}-{shape}{plain}{nuls}{alt}"
     | _ => answer "err-parse" "dontcare" "foreign-unparsable"
 
 def handle (op : String) (args : List String) (impl : String) : String :=
